@@ -36,13 +36,19 @@ def make_task(rng, kind):
             i = rng.randrange(len(cur))
             cur[i] = not cur[i]
         masks.append(list(cur))
-    t = {"kind": kind, "shapes": shapes, "S": S, "draw": draw, "masks": masks, "seed": rng.randrange(1 << 30)}
+    t = {"kind": kind, "shapes": shapes, "S": S, "draw": draw, "masks": masks, "seed": rng.randrange(1 << 30),
+         "zero_rows": rng.random() < 0.4}
     if kind == "hybrid":
         t["S"] = min(S, 3)
         t["R"] = rng.choice([1, 2, 2, 4]) if t["S"] <= 2 else rng.choice([1, 2])
         t["GS"] = rng.choice([d for d in (1, 2, 4) if t["R"] % d == 0])
         t["comm"] = rng.choice(["fp32", "fp32", "bf16"])
         t["comm_params"] = rng.random() < 0.4
+        if t["R"] > 1 and rng.random() < 0.4:
+            rows = list(range(t["R"]))
+            while rows == sorted(rows):
+                rng.shuffle(rows)
+            t["mesh_rows"] = rows
     return t
 
 
